@@ -23,21 +23,21 @@ NOTES = {
 }
 # what is tied to the property by translation of the current source text (tools/py2coq*.py) in addition to the correspondence run
 TIED = {
- "C01": "expand_source_SCCs.py (expand_source_SCCs and attach_scc_subdiagram)",
+ "C01": "expand_source_SCCs.py (expand_source_SCCs and attach_scc_subdiagram), expand_source_blocks.py, the public methods expand_scc / expand_block / build",
  "C02": "SuccessionDiagram.__init__, _expand_one_node, _ensure_node, _ensure_edge, _update_node_depth, node_successors, expand_bfs.py, expand_dfs.py and the public wrappers",
- "C03": "expand_bfs.py, expand_dfs.py, expand_minimal_spaces.py, expand_attractor_seeds.py, expand_source_SCCs.py and the public wrappers",
+ "C03": "expand_bfs.py, expand_dfs.py, expand_minimal_spaces.py, expand_attractor_seeds.py, expand_source_SCCs.py, expand_source_blocks.py, the public wrappers and minimal_trap_spaces()",
  "C04": "expand_bfs.py, expand_dfs.py, _expand_one_node, _ensure_node, node_successors",
  "C05": "skip_to_minimal, skip_remaining, expand_minimal_spaces.py",
  "C06": "space_utils.is_subspace / intersect, expand_to_target.py and its public wrapper, control.find_drivers / drivers_of_succession",
  "C07": "control.find_drivers / drivers_of_succession",
  "C10": "petri_net_translation.variable_to_place / place_to_variable",
  "C11": "space_utils.percolate_space_strict / percolation_conflicts, drivers.find_single_node_LDOIs / find_single_drivers",
- "C13": "the loops of expand_bfs.py, expand_dfs.py, expand_to_target.py, expand_minimal_spaces.py, expand_attractor_seeds.py",
+ "C13": "the loops of expand_bfs.py, expand_dfs.py, expand_to_target.py, expand_minimal_spaces.py, expand_attractor_seeds.py, expand_source_SCCs.py, expand_source_blocks.py",
  "C14": "_expand_one_node, skip_to_minimal, skip_remaining, reclaim_node_data, expand_source_SCCs.attach_scc_subdiagram (cache clearing)",
  "C15": "the limit handling of expand_bfs.py, expand_dfs.py, expand_to_target.py, expand_minimal_spaces.py, expand_attractor_seeds.py",
  "C16": "SuccessionDiagram.__getstate__ / __setstate__, reclaim_node_data",
  "C19": "_expand_one_node (sorting by key), expand_bfs.py, expand_dfs.py (sorted successors)",
- "C20": "space_utils.space_unique_key, __init__, _ensure_node / _update_node_depth, depth, __len__, root, node_is_minimal, is_subgraph, is_isomorphic",
+ "C20": "space_utils.space_unique_key, __init__, _ensure_node / _update_node_depth, depth, __len__, root, node_is_minimal, is_subgraph, is_isomorphic, find_node, node_ids / stub_ids / expanded_ids, edge_stable_motif / edge_all_stable_motifs",
 }
 checks = []
 for pid in sorted(props):
